@@ -146,6 +146,15 @@ class CallFrame(MemorySegment):
         # also for debugging purposes
         self.ret_addr = ret_addr
 
+        # the depth of the operand stack right after this frame was set
+        # up (the routine's return address being the top entry), and
+        # the number of GOSUBs pending in this frame (each keeps one
+        # return address on the stack). together they tell how deep the
+        # stack is at any statement boundary of this routine, which is
+        # what an abandoned statement has to be unwound to.
+        self.stack_base = 0
+        self.gosub_depth = 0
+
     def set_temp_reference(self, idx, value):
         # get a non reference value, create a temporary cell for it,
         # and then store a reference to it in the given index.
@@ -422,6 +431,7 @@ class QvmCpu:
 
         if not self.error_handler_active and \
            self.trap_target is not None:
+            self._unwind_statement()
             if self.trap_target == 'next':
                 try:
                     self._exec_errresn()
@@ -675,7 +685,30 @@ class QvmCpu:
 
     def _exec_call(self, target):
         self.push(CellType.LONG, self.pc)
+        if self.cur_frame is not None and \
+           not self._is_routine_entry(target):
+            # a GOSUB: its return address stays on the stack until
+            # the matching RETURN
+            self.cur_frame.gosub_depth += 1
         self.pc = target
+
+    def _is_routine_entry(self, addr):
+        if addr < 0 or addr >= len(self.module.code):
+            return False
+        instr = op_code_to_instr.get(self.module.code[addr])
+        return instr is not None and instr.op == 'frame'
+
+    def _gosub_returned(self):
+        if self.cur_frame is not None and self.cur_frame.gosub_depth > 0:
+            self.cur_frame.gosub_depth -= 1
+
+    def _unwind_statement(self):
+        # drop whatever the failed statement left on the operand stack
+        frame = self.cur_frame
+        if frame is not None:
+            depth = frame.stack_base + frame.gosub_depth
+            if len(self.stack) > depth:
+                del self.stack[depth:]
 
     def _exec_chr(self):
         char_code = self.pop(CellType.INTEGER)
@@ -872,6 +905,7 @@ class QvmCpu:
 
         # push back return address
         self.push(CellType.LONG, ret_addr)
+        frame.stack_base = len(self.stack)
 
     def _exec_ge(self):
         value = self.pop()
@@ -920,7 +954,9 @@ class QvmCpu:
         self.push(a.type, result)
 
     def _exec_ijmp(self):
+        # RETURN
         target = self.pop(CellType.LONG)
+        self._gosub_returned()
         self.pc = target
 
     def _exec_imp(self):
@@ -1149,7 +1185,9 @@ class QvmCpu:
         self._bitwise(lambda a, b: a | b)
 
     def _exec_pop(self):
+        # RETURN <label>: throws away the GOSUB's return address
         self.pop()
+        self._gosub_returned()
 
     def _exec_push_string(self, value):
         self.push(CellType.STRING, value)
